@@ -16,7 +16,7 @@ HEADER = 'From Coq Require Import String.\nRequire Import V.Corr.CorrC13.\nOpen 
 # closed under prefix / substring / digit-suffix relations
 BASES = ['A', 'A_B', 'A_A', 'AB', 'Fit', 'Fit_001', 'Fit2', 'SHO_Fit', 'Meas', 'Measure', 'Meas_Chan', 'C', 'C_C', 'X_1', 'X']
 DSETS = ['Raw', 'Raw_Data', 'Data', 'Raw2', 'Raw_Data_2', 'D']
-TOOLS = ['Fit', 'SHO_Fit', 'Fit2', 'Fitter', 'Mean', 'Mean_Val', 'Mean-Val', 'F']
+TOOLS = ['Fit', 'SHO_Fit', 'Fit2', 'Fitter', 'Mean', 'Mean_Val', 'Mean-Val', 'F', 'Fit_2', 'Mean_Val_07']
 
 
 def cs(s):
